@@ -189,3 +189,28 @@ def p21_short_params(base, schema, pop, maxlen=2):
                     new = gen_p21.join_tokens(gen_p21.inst_tokens(i2), 'compact', None)
                     out.append((_b(base.replace(orig, new, 1)), 'short parameter string len %d' % L, k + ' attribute'))
     return out
+
+
+def p21_scaling_families(schema, pop):
+    """Families of inputs whose size is a parameter: the CPU time of reading+writing must grow (about) linearly with it.
+    -> [(family name, function n -> bytes)]"""
+    S = schema.name.upper()
+    H = HDR % S
+    first = pop.insts[0]
+    kw = first.parts[0][0]
+    line = gen_p21.join_tokens(gen_p21.inst_tokens(first), 'compact', None)
+
+    def f(body):
+        return lambda n: _b(H + body(n) + '\n' + TAIL)
+    return [
+        ('string of n doubled apostrophes as first parameter', f(lambda n: "#1=%s('%s');" % (kw, "''" * n))),
+        ("string of n x it''s as first parameter", f(lambda n: "#1=%s('%s');" % (kw, "it''s " * n))),
+        ('string of n plain characters as first parameter', f(lambda n: "#1=%s('%s');" % (kw, 'a' * (2 * n)))),
+        ('string of n \\X\\41 escapes as first parameter', f(lambda n: "#1=%s('%s');" % (kw, '\\X\\41' * n))),
+        ('header string of n doubled apostrophes', lambda n: _b(H.replace("'n'", "'" + "''" * n + "'") + line + '\n' + TAIL)),
+        ('n copies of a conforming instance with increasing ids', f(lambda n: '\n'.join(line.replace('#%d=' % first.id, '#%d=' % (100000 + k), 1) for k in range(max(1, n // 8))))),
+        ('comment of n characters before an instance', f(lambda n: '/*' + 'c ' * n + '*/\n' + line)),
+        ('aggregate of n integers as first parameter', f(lambda n: '#1=%s((%s));' % (kw, ','.join(['7'] * n)))),
+        ('n unknown entity instances', f(lambda n: '\n'.join('#%d=NOSUCH(1);' % (k + 1) for k in range(max(1, n // 8))))),
+        ('complex instance with n integer parameters in one part', f(lambda n: '#1=(%s(%s));' % (kw, ','.join(['1'] * n)))),
+    ]
